@@ -38,6 +38,7 @@ type finding struct {
 	Kind    string `json:"kind"`    // oracle kind
 	Subject string `json:"subject"` // atom name concerned ("" = whole sequence)
 	Detail  string `json:"detail"`
+	Info    string `json:"info,omitempty"` // numbers / names for the description; not part of the class key
 }
 
 func (f finding) key() string { return f.Kind + "|" + f.Subject + "|" + f.Detail }
@@ -85,7 +86,17 @@ func parseTrace(tr string) (kind, site string) {
 	if start < 0 {
 		return "", ""
 	}
-	for _, l := range lines[start+1:] {
+	rest := lines[start+1:]
+	for i, l := range rest {
+		if strings.HasPrefix(l, "goroutine ") && i > 2 {
+			break
+		}
+		if strings.HasPrefix(l, "panic(") { // debug.Stack() of a recovered panic: the site follows the panic frame
+			rest = rest[i+1:]
+			break
+		}
+	}
+	for _, l := range rest {
 		if strings.HasPrefix(l, "\t") || l == "" {
 			continue
 		}
@@ -233,11 +244,16 @@ func runJob(A []atom, j job, tail *errTail) jobResult {
 	// return while the runtime is still busy killing the process. A stop-the-world request cannot
 	// complete once the dying goroutine froze the world, so this goroutine parks here until exit(2).
 	stk := make([]byte, 1<<20)
-	stk = stk[:runtime.Stack(stk, true)]
-	if bytes.Contains(stk, []byte("github.com/basekick-labs/arc/internal/")) {
-		// a goroutine of the system under test is still alive after Close(): it is on its way down
-		// (or stuck); wait for the process to die / the watchdog to report a hang
-		select {}
+	for {
+		n := runtime.Stack(stk, true)
+		if !bytes.Contains(stk[:n], []byte("github.com/basekick-labs/arc/internal/")) {
+			break
+		}
+		// A goroutine of the system under test is still alive after Close(): either a request
+		// goroutine finishing its middleware epilogue (gone in a moment) or a flush goroutine on its
+		// way down (then this loop ends with the process; a goroutine that stays forever ends in the
+		// watchdog's hang report).
+		time.Sleep(time.Millisecond)
 	}
 
 	// ---- oracle over the store ----
@@ -249,7 +265,7 @@ func runJob(A []atom, j job, tail *errTail) jobResult {
 	for _, p := range paths {
 		rows, _, _, err := hx.ReadParquet(files[p])
 		if err != nil {
-			fl = append(fl, finding{"stored-file-unreadable", "", err.Error()})
+			fl = append(fl, finding{Kind: "stored-file-unreadable", Subject: "", Detail: err.Error()})
 			continue
 		}
 		seen := map[int]bool{}
@@ -287,7 +303,7 @@ func runJob(A []atom, j job, tail *errTail) jobResult {
 		st := res.Status[p]
 		ok2xx := st >= 200 && st < 300
 		if st < 0 {
-			fl = append(fl, finding{"no-response", a.Name, ""})
+			fl = append(fl, finding{Kind: "no-response", Subject: a.Name, Detail: ""})
 		}
 		if ok2xx {
 			res.Accepted++
@@ -306,7 +322,7 @@ func runJob(A []atom, j job, tail *errTail) jobResult {
 		got := byPos[p]
 		if !ok2xx {
 			if len(got) > 0 {
-				fl = append(fl, finding{"rejected-request-stored-rows", a.Name, fmt.Sprintf("status=%d rows=%d", st, len(got))})
+				fl = append(fl, finding{Kind: "rejected-request-stored-rows", Subject: a.Name, Detail: fmt.Sprintf("status=%d rows=%d", st, len(got))})
 			}
 			continue
 		}
@@ -314,11 +330,11 @@ func runJob(A []atom, j job, tail *errTail) jobResult {
 			continue
 		}
 		if len(got) < a.NRows {
-			fl = append(fl, finding{"acked-rows-missing", a.Name, fmt.Sprintf("stored %d of %d", len(got), a.NRows)})
+			fl = append(fl, finding{Kind: "acked-rows-missing", Subject: a.Name, Detail: fmt.Sprintf("stored %d of %d", len(got), a.NRows)})
 			continue
 		}
 		if len(got) > a.NRows {
-			fl = append(fl, finding{"acked-rows-duplicated", a.Name, fmt.Sprintf("stored %d of %d", len(got), a.NRows)})
+			fl = append(fl, finding{Kind: "acked-rows-duplicated", Subject: a.Name, Detail: fmt.Sprintf("stored %d of %d", len(got), a.NRows)})
 			continue
 		}
 		if a.Exact != nil {
@@ -336,17 +352,18 @@ func runJob(A []atom, j job, tail *errTail) jobResult {
 					ds = append(ds, d)
 				}
 				sort.Strings(ds)
-				fl = append(fl, finding{"stored-row-differs", a.Name, strings.Join(ds, ",")})
+				fl = append(fl, finding{Kind: "stored-row-differs", Subject: a.Name, Detail: strings.Join(ds, ",")})
 			}
 		}
 	}
 	if judgeUnknown && unknown != wantUnknown {
-		kind := "acked-rows-missing"
+		f := finding{Kind: "acked-rows-missing", Detail: "fewer rows with server-generated/format-derived time stored than acknowledged"}
 		if unknown > wantUnknown {
-			kind = "unattributed-rows-stored"
+			f = finding{Kind: "unattributed-rows-stored", Detail: "more rows stored than the accepted requests carry"}
 		}
 		sort.Strings(unkSubjects)
-		fl = append(fl, finding{kind, strings.Join(unkSubjects, "+"), fmt.Sprintf("unknown-time rows stored %d, acknowledged %d", unknown, wantUnknown)})
+		f.Info = fmt.Sprintf("rows outside every request's time window: stored %d, acknowledged %d (by %s)", unknown, wantUnknown, strings.Join(unkSubjects, " + "))
+		fl = append(fl, f)
 	}
 	// attach the recovered panic (if any) to row-loss findings so that the class names its cause
 	if len(res.Recovered) > 0 {
@@ -397,7 +414,11 @@ func workerMain() {
 	for _, j := range jobs {
 		fmt.Fprintf(w, "B %d\n", j.ID)
 		w.Flush()
-		wd := time.AfterFunc(900*time.Second, func() {
+		wdSec := 900
+		if v := os.Getenv("VERIF_C04_WATCHDOG_S"); v != "" { // debugging aid
+			fmt.Sscanf(v, "%d", &wdSec)
+		}
+		wd := time.AfterFunc(time.Duration(wdSec)*time.Second, func() {
 			fmt.Fprintf(os.Stderr, "C04-HANG job %d\n", j.ID)
 			pprof.Lookup("goroutine").WriteTo(os.Stderr, 2)
 			os.Exit(3)
